@@ -722,6 +722,7 @@ def run(ctx):
     # anchor "container readers strip their own prefix and re-tokenize the remainder": shared with C04
     from . import c04
     c04.rule_strip_provenance(ctx, rep)
+    c04.rule_content_rows(ctx, rep)
     c04.rule_marker_arith(ctx, rep)
     rule_set(ctx, rep)
     rule_cond(ctx, rep)
